@@ -49,7 +49,7 @@ var HTTPMenu = []struct {
 	Status int
 	Body   string
 }{
-	{200, `{"ok":true,"n":1}`},
+	{200, `{"ok": true, "n": 1}`}, // insignificant whitespace, as real servers send
 	{400, `{"errors":["bad"]}`},
 	{0, ``}, // connection error
 	{200, `not json`},
